@@ -78,7 +78,8 @@ impl Streams {
                 let mut stream = Stream::new();
                 stream.add_value(value, generation)?;
                 let descriptor = StreamDescriptor::global(stream);
-                self.streams.insert(name.to_string(), vec![descriptor]);
+                // restricted embodiments of still open `new` scopes must survive: the global stream goes below them
+                self.streams.entry(name.to_string()).or_default().insert(0, descriptor);
             }
         }
         Ok(())
